@@ -81,6 +81,11 @@ def _main(a, prop, mod, t0, tmp):
         r = run_worker(prop, tier, a.seed, 0, 1, tmp, 900, replay=os.path.abspath(a.replay))
         print(json.dumps({k: r.get(k) for k in ('status', 'violations', 'crash', 'inconclusive')}, indent=1)[:6000])
         vs = r.get('violations') or []
+        for v in vs:
+            print('replayed: mechanism=%s finding=%s detail=%s' % (v.get('mechanism'), v.get('finding'), json.dumps(v.get('detail'))[:400]))
+        for fid in sorted({v['finding'] for v in vs if v.get('finding')}):
+            print('KNOWN-FINDING: property=%s %s (replayed case)' % (prop, fid))
+        vs = [v for v in vs if not v.get('finding')]
         if vs:
             print('VIOLATION property=%s replay=%s' % (prop, a.replay))
             return 1
